@@ -109,7 +109,7 @@ class EffectInterp(Interpreter):
         self.internal_classes = set()  # names of interpreter-internal classes: opaque values are never instances
         self.builtins.update({"setattr": lambda i, o, n, v: i.setattr_(o, n, v), "iter": lambda i, x: i.prim_iter(x),
                               "slice": lambda i, *a: ("slice",) + tuple(a), "repr": _b_repr_eff, "ascii": _b_ascii_eff,
-                              "callable": _b_callable_eff, "format": _b_format_eff})
+                              "callable": _b_callable_eff, "format": _b_format_eff, "len": _b_len_eff})
         self.type_ctors = {"str": _b_str_eff, "tuple": _b_tuple_eff, "set": _b_set_eff}
 
     # ------------------------------------------------------------------------------------------------
@@ -555,6 +555,13 @@ def _b_repr_eff(interp, v):
     if interp.is_opaque(v) or isinstance(v, EStr):
         return EStr([interp.prim("repr", [v]).t])
     return repr(v)
+
+
+def _b_len_eff(interp, v):
+    if interp.is_opaque(v):
+        return interp.prim("len", [v])
+    from .stmts import _b_len
+    return _b_len(interp, v)
 
 
 def _b_ascii_eff(interp, v):
